@@ -125,6 +125,10 @@ def gen_spec(draw, d, must_fail, counter):
     k = draw(S_(kinds))
     if k == 'leaf':
         if must_fail:
+            if d > 0 and draw(S_(range(6))) == 0:
+                # a spec that recovers through a CONSTANT default, inside a spec that then fails on its own
+                # without evaluating anything else (Check after its sub-spec, a T index that is missing)
+                return [draw(S_(['checkrec', 'tindexrec'])), n, [['fail', 'path', n + 500], ['fail', 'tstep', n + 501]][:draw(st.integers(1, 2))]]
             return ['fail', draw(S_(['path', 'tstep', 'glomerror', 'valueerror', 'check', 'match', 'sunbound', 'path', 'tstep'])), n]
         return ['ok', draw(S_(['plain', 'plain', 'plain', 'long', 'unicode', 'clone'])), n]
     sub = lambda mf: gen_spec(draw, d - 1, mf, counter)
@@ -203,6 +207,10 @@ def build(r):
         if kind == 'match':
             return Match('expected%d' % n)
         return getattr(S, 'unbound%d' % n)
+    if k == 'checkrec':
+        return Check(Coalesce(*[build(x) for x in r[2]], default='const%d' % r[1]), type=type('Marker%d' % r[1], (), {}))
+    if k == 'tindexrec':
+        return T[Coalesce(*[build(x) for x in r[2]], default='nokey%d' % r[1])]
     if k == 'tuple':
         return tuple(build(x) for x in r[1])
     if k == 'pipe':
